@@ -27,13 +27,13 @@ pub fn ppoprf_exchange(server: &Server, md: u8, input: &[u8], verifiable: bool) 
     return Err(format!("honest verifiable evaluation did not verify (tag {md})"));
   }
   let unblinded = Client::unblind(&ev.output, &r);
-  let mut out = [0u8; 32];
+  let mut out = [0xC3u8; 32]; // previous contents must not matter
   Client::finalize(input, md, &unblinded, &mut out);
   Ok(out)
 }
 
 pub fn ske_key(msg: &[u8], epoch: &[u8]) -> [u8; 16] {
-  let mut k = [0u8; 16];
+  let mut k = [0x3Cu8; 16]; // previous contents must not matter
   sta_rs::derive_ske_key(msg, epoch, &mut k);
   k
 }
